@@ -14,9 +14,10 @@ they are enumerated on the real code by the harness, not modelled.
 -/
 import XlModel.Lemmas.CalcTotal
 import XlModel.Lemmas.CalcTotalStack
+import XlModel.Lemmas.CalcTotalFn
 
 namespace XlModel.Props.C09
-open XlModel XlModel.CalcTotal XlModel.Lemmas.CalcTotal XlModel.Lemmas.CalcTotalStack
+open XlModel XlModel.CalcTotal XlModel.Lemmas.CalcTotal XlModel.Lemmas.CalcTotalStack XlModel.Lemmas.CalcTotalFn
 
 /-! ## the facts the model is defined over -/
 
@@ -111,14 +112,44 @@ def witnessArraySep : List Tok :=
 parenthesis" (`SUM(({1,2}))` panicked in `parseToken`; repository fix 6963681). -/
 theorem fixed_array_separator_witness : evalTokens semU witnessArraySep = .ok () := by decide
 
-/-- with functions the machine can still be driven into a panic by token lists efp cannot
-emit (here: a Function Stop inside an open parenthesis): the in-function no-panic claim is
-NOT proved in Lean; it rests on the transcript (model ≡ code on every explored list,
-including all lists of ≤ 3 (quick) / 4 (thorough) tokens over a 17-token alphabet) and on
-the oracle (no efp-derived list panics). -/
+/-- **No panic with function calls, every value semantics, every depth and arity.**  For every
+token list whose function calls and parentheses are properly nested (`nested [] 0`: what a
+tokenizer with a bracket stack emits — a Function Stop with nothing open is tolerated, an
+Argument separator never sits directly inside a parenthesis) and that contains no array
+constant, and for EVERY operand semantics, reference resolver and function library,
+`evalInfixExp` returns a value or an error: every `Peek().(efp.Token)` on `opftStack` /
+`opfStack` / `optStack`, every `Peek().(*list.List)` on `argsStack` and every
+`Pop().(formulaArg)` finds its element.  Invariant (`Lemmas/CalcTotalFn.Inv`): the Function
+tokens on `opft` are, in order, the tokens of `opf`; `len(args) = len(opf)`; the "(" on
+`opft` / `opt` are the open parentheses of the nesting.  It needs `getPriority(function) = 0`
+(fix cc2477f) — before that fix the statement was false. -/
+theorem eval_no_panic_functions {V : Type} (S : Sem V) (toks : List Tok)
+    (hnest : nested [] 0 toks = true)
+    (harr : ∀ t ∈ toks, isFuncStart t = true → (t.val == "ARRAY") = false ∧ (t.val == "ARRAYROW") = false) :
+    evalTokens S toks ≠ .panic :=
+  run_inv S toks {} [] 0 inv_init hnest harr
+
+/-- the nesting hypothesis is necessary: a Function Stop inside an open parenthesis (a list no
+bracket-stack tokenizer emits) panics in the model — and in the code (transcript `ev`). -/
 theorem finding_model_stop_inside_paren_panics :
+    nested [] 0 [fstart "SUM", ⟨"", .subexpr, .start⟩, num "1", fstop, ⟨"", .subexpr, .stop⟩] = false ∧
     evalTokens semU [fstart "SUM", ⟨"", .subexpr, .start⟩, num "1", fstop, ⟨"", .subexpr, .stop⟩] = .panic := by
   decide
+
+/-- tokens efp emits for `{(SUM(1))}` -/
+def witnessArrayParenFn : List Tok :=
+  [fstart "ARRAY", fstart "ARRAYROW", ⟨"", .subexpr, .start⟩, fstart "SUM", num "1", fstop,
+   ⟨"", .subexpr, .stop⟩, fstop, fstop]
+
+/-- **Open finding (code and model agree): the "no array constant" hypothesis of
+`eval_no_panic_functions` is necessary.**  `{(SUM(1))}` — a function call inside a
+parenthesis inside an array constant — is properly nested, yet the array flags make the
+call's Function Stop close the array row instead of the call; `SUM` stays on the function
+stack and the `)` empties `opftStack` (`Peek().(efp.Token)` on nil in `parseToken`).  Found by
+enumerating the model over all nested lists of 5 tokens; reproduced on the real code
+(`CalcCellValue` of `{(SUM(1))}` panics); left open under the fix freeze. -/
+theorem finding_array_paren_function_panics :
+    nested [] 0 witnessArrayParenFn = true ∧ evalTokens semU witnessArrayParenFn = .panic := by decide
 
 /-! ## termination on circular references ("in bounded time … circular reference chains of any shape") -/
 
@@ -223,6 +254,12 @@ def twoCycle : Graph Int where
   blank := 0
 
 theorem two_cycle_value : (calcEntry twoCycle 0 3 0).map (·.1) = some 2 := by decide
+
+/-- the nesting hypothesis is satisfiable by a non-trivial list: `SUM(1,(2+3))*MAX(4)` followed by a stray `)` -/
+theorem nested_example :
+    nested [] 0 [fstart "SUM", num "1", ⟨",", .argument, .nothing⟩, ⟨"", .subexpr, .start⟩, num "2",
+      ⟨"+", .opInfix, .math⟩, num "3", ⟨"", .subexpr, .stop⟩, fstop, ⟨"*", .opInfix, .math⟩, fstart "MAX",
+      num "4", fstop, fstop] = true := by decide
 
 /-- the balanced hypothesis is satisfiable by a non-trivial list: `(1+2)*3` -/
 theorem balanced_example :
